@@ -21,6 +21,7 @@ FIELDS = ["pos", "rpos", "roff", "rcur", "rnxt", "rprv", "noeol"]
 def main(ctx, args):
     nlines = sum(13 ** i for i in range(0, 3 + 1)) if ctx.quick else sum(13 ** i for i in range(0, 4 + 1))
     cases, info = line_tables(ctx, nlines, 4 if ctx.quick else 6)
+    cases += mark_tables(ctx, 30)        # nested direction marks: visual orders that are not their own inverse
     results = run_lines(ctx, cases)
     st = dict(lines=0, fields=0, reordered=0, with_tab=0, scalars=0)
     samples = []
@@ -35,8 +36,6 @@ def main(ctx, args):
             continue
         st["reordered"] += c["reo"]
         st["with_tab"] += 9 in c["line"]
-        if c["marks"]:
-            continue
         for f in FIELDS:
             st["fields"] += 1
             if got[f] != c[f]:
